@@ -44,6 +44,121 @@ def _names(lst):
     return [w.get("qualified_name", "?") for w in lst]
 
 
+_OPEN_FDS = set()   # pipe ends of live reference servers (closed in every newly forked server)
+
+
+class RefServer:
+    """A reference that cannot be reached by anything the run does afterwards.
+
+    At the moment an object enters service (fit or load returned) — or is stored — the worker forks.  The child
+    keeps the whole process image of that instant: the object, every other object, every module-level and
+    class-level state.  Each later reference prediction is computed in a grandchild forked from that pristine
+    child, so neither the run nor earlier reference predictions can age the reference, and the reference's own
+    side effects never reach the run.  (A deep copy in the same process shares class-level and module-level
+    state with the object under test, and therefore agrees with a defect that lives there.)"""
+
+    def __init__(self, worker, obj, fam):
+        import os
+
+        self.dead = False
+        a_r, a_w = os.pipe()   # parent -> child
+        b_r, b_w = os.pipe()   # child -> parent
+        pid = os.fork()
+        if pid == 0:
+            try:
+                try:
+                    import ctypes
+                    import signal as _sig
+
+                    ctypes.CDLL("libc.so.6").prctl(1, _sig.SIGKILL)   # PR_SET_PDEATHSIG
+                except Exception:  # noqa: BLE001
+                    pass
+                os.close(a_w)
+                os.close(b_r)
+                for fd in list(_OPEN_FDS):
+                    try:
+                        os.close(fd)
+                    except OSError:
+                        pass
+                self._serve(worker, obj, fam, a_r, b_w)
+            finally:
+                os._exit(0)
+        os.close(a_r)
+        os.close(b_w)
+        self.pid, self.w, self.r = pid, a_w, b_r
+        _OPEN_FDS.update((a_w, b_r))
+        self.rfile = os.fdopen(b_r, "r", closefd=False)
+
+    @staticmethod
+    def _serve(worker, obj, fam, rfd, wfd):
+        import os
+
+        rf = os.fdopen(rfd, "r")
+        for line in rf:
+            req = json.loads(line)
+            gpid = os.fork()
+            if gpid == 0:
+                try:
+                    try:
+                        fresh = worker._fresh_data(req["recipe"])
+                        with worker._quiet():
+                            res = worker._do_predict(obj, fam, fresh, req["ignore"], req["agg"])
+                        ans = {"cls": "returned", "parts": D.frame_parts(res)}
+                    except Exception as e:  # noqa: BLE001
+                        ans = {"cls": _cls(e), "parts": None}
+                    os.write(wfd, (json.dumps(ans) + "\n").encode())
+                finally:
+                    os._exit(0)
+            try:
+                os.waitpid(gpid, 0)
+            except ChildProcessError:
+                pass
+
+    def predict(self, recipe, ignore, agg, timeout=600.0):
+        import os
+        import select
+
+        if self.dead:
+            return ("reference-unavailable", None)
+        try:
+            os.write(self.w, (json.dumps({"recipe": recipe, "ignore": ignore, "agg": agg}) + "\n").encode())
+            r, _, _ = select.select([self.r], [], [], timeout)
+            if not r:
+                self.close()
+                return ("reference-unavailable", None)
+            line = self.rfile.readline()
+            if not line:
+                self.close()
+                return ("reference-unavailable", None)
+            ans = json.loads(line)
+            return (ans["cls"], ans["parts"])
+        except OSError:
+            self.close()
+            return ("reference-unavailable", None)
+
+    def close(self):
+        import os
+        import signal as _sig
+
+        if self.dead:
+            return
+        self.dead = True
+        for fd in (self.w, self.r):
+            _OPEN_FDS.discard(fd)
+            try:
+                os.close(fd)
+            except OSError:
+                pass
+        try:
+            os.kill(self.pid, _sig.SIGKILL)
+        except OSError:
+            pass
+        try:
+            os.waitpid(self.pid, 0)
+        except OSError:
+            pass
+
+
 class ModelSlot:
     def __init__(self, obj, fam, profile):
         self.obj = obj
@@ -51,7 +166,8 @@ class ModelSlot:
         self.profile = profile
         self.fitted = False
         self.base_recipe = None
-        self.twin = None          # service twin: deep copy taken when the object entered service
+        self.twin = None          # deep copy taken when the object entered service (fidelity self-check only)
+        self.ref = None           # RefServer forked when the object entered service (the reference twin)
         self.gen = 0              # restore generation
         self.origin_doc = None    # document it was restored from
         self.lineage = None
@@ -86,7 +202,7 @@ class Worker:
         self.data = {}
         self.clock = seams.VClock()
         seams.install_clock(self.clock)
-        self.store_twins = {}      # oracle memory: doc id -> deep copy of the object that was stored
+        self.store_twins = {}      # oracle memory: doc id -> RefServer forked when the object was stored
         self.thread_mode = False
         self.blas = None
         self._blas_ctx = None
@@ -99,6 +215,25 @@ class Worker:
         self.probes = {}
 
     # ------------------------------------------------------------------ helpers
+
+    def _drop_model(self, ms):
+        slot = self.models.pop(ms, None)
+        if slot is not None and slot.ref is not None:
+            slot.ref.close()
+
+    def _enter_service(self, slot):
+        """Fork the reference for an object that just entered service (or was just found altered)."""
+        if slot.ref is not None:
+            slot.ref.close()
+        slot.ref = RefServer(self, slot.obj, slot.fam)
+        slot.ref_cache = {}
+
+    def close(self):
+        for ms in list(self.models):
+            self._drop_model(ms)
+        for srv in self.store_twins.values():
+            srv.close()
+        self.store_twins.clear()
 
     def probe(self, name, n=1):
         self.probes[name] = self.probes.get(name, 0) + n
@@ -256,7 +391,7 @@ class Worker:
                 paths = []
                 if txt and slot.last_state[1]:
                     try:
-                        paths = D.top_paths(D.json_paths_diff(json.loads(slot.last_state[1]), json.loads(txt)))
+                        paths = D.top_diff(json.loads(slot.last_state[1]), json.loads(txt))
                     except Exception:  # noqa: BLE001
                         pass
                 already = (kind in ("PREDICT", "INSPECT", "STORE", "SCRIBBLE_PRED") and a.get("m") == ms
@@ -265,8 +400,7 @@ class Worker:
                     coll.append({"what": "model", "fam": slot.fam, "profile": slot.profile, "paths": paths,
                                  "own": a.get("m") == ms})
                     try:
-                        slot.twin = copy.deepcopy(slot.obj)
-                        slot.ref_cache = {}
+                        self._enter_service(slot)
                     except Exception:  # noqa: BLE001
                         pass
             slot.last_state = (dg, txt)
@@ -287,7 +421,8 @@ class Worker:
 
     def op_CRASH_RESTART(self, a, store):
         n = len(self.models) + len(self.data)
-        self.models.clear()
+        for ms in list(self.models):
+            self._drop_model(ms)
         self.data.clear()
         gc.collect()
         self.restarts += 1
@@ -404,7 +539,7 @@ class Worker:
 
     def op_NEW_MODEL(self, a, store):
         """An unfitted model object in a slot (so that the gate can be asked about it)."""
-        self.models.pop(a["m"], None)
+        self._drop_model(a["m"])
         try:
             with self._quiet():
                 model = P.make_model(self.em, a["fam"], a["profile"])
@@ -463,7 +598,7 @@ class Worker:
         facts = self._fit_facts(fam, profile, ds)
         facts["ignore"] = ignore
         old = self.models.get(a["m"])
-        self.models.pop(a["m"], None)
+        self._drop_model(a["m"])
         if ds is None:
             return {"class": "skipped", "facts": facts}
         try:
@@ -523,6 +658,7 @@ class Worker:
             out["twin_ok"] = False
             out["twin_error"] = _cls(e)
         self.models[a["m"]] = slot
+        self._enter_service(slot)
         return out
 
     def _fit_aborted(self, a, ds, model, kw, ab, before, out):
@@ -653,12 +789,11 @@ class Worker:
             if out["model_changed"]:
                 paths = []
                 if m_txt_before and m_txt_after:
-                    paths = D.top_paths(D.json_paths_diff(json.loads(m_txt_before), json.loads(m_txt_after)))
+                    paths = D.top_diff(json.loads(m_txt_before), json.loads(m_txt_after))
                 out["model_changed_paths"] = paths
                 # re-synchronise so that one defect does not cascade through the rest of the run
                 try:
-                    slot.twin = copy.deepcopy(slot.obj)
-                    slot.ref_cache = {}
+                    self._enter_service(slot)
                     out["resynced"] = True
                 except Exception:  # noqa: BLE001
                     pass
@@ -685,18 +820,23 @@ class Worker:
         else:
             parts = None
         # references (only meaningful for a fitted model; skipped after an injected abort of this very op)
-        if slot.fitted and slot.twin is not None and not aborted and not out.get("resynced"):
+        if slot.fitted and slot.ref is not None and not aborted and not out.get("resynced"):
             key = (C.rid(ds.recipe), ignore, agg)
-            rcls, rparts = self._ref_predict(slot, slot.twin, ds.recipe, ignore, agg, slot.ref_cache, key)
-            out["ref_class"] = rcls
-            if rcls == "returned" and parts is not None:
-                out["ref_diff"] = sorted({k for k in D.diff_parts(parts, rparts)})
+            if key not in slot.ref_cache:
+                slot.ref_cache[key] = slot.ref.predict(ds.recipe, ignore, agg)
+            rcls, rparts = slot.ref_cache[key]
+            if rcls == "reference-unavailable":
+                out["ref_unavailable"] = True
+            else:
+                out["ref_class"] = rcls
+                if rcls == "returned" and parts is not None:
+                    out["ref_diff"] = sorted({k for k in D.diff_parts(parts, rparts)})
             if slot.origin_doc is not None and slot.origin_doc in self.store_twins:
-                tw = self.store_twins[slot.origin_doc]
-                scls, sparts = self._ref_predict(slot, tw, ds.recipe, ignore, agg)
-                out["store_ref_class"] = scls
-                if scls == "returned" and parts is not None:
-                    out["store_ref_diff"] = sorted({k for k in D.diff_parts(parts, sparts)})
+                scls, sparts = self.store_twins[slot.origin_doc].predict(ds.recipe, ignore, agg)
+                if scls != "reference-unavailable":
+                    out["store_ref_class"] = scls
+                    if scls == "returned" and parts is not None:
+                        out["store_ref_diff"] = sorted({k for k in D.diff_parts(parts, sparts)})
             elif slot.origin_doc is not None and store.get(slot.origin_doc, {}).get("panel"):
                 pan = store[slot.origin_doc]["panel"].get(C.rid(ds.recipe) + f"|{ignore}|{agg}")
                 if pan is not None:
@@ -723,6 +863,9 @@ class Worker:
                "covers": bool(slot.base_recipe and C.covers_full_year(slot.base_recipe)),
                "history": {"n_prev": slot.n_predicts, "prev_span": slot.prev_span, "gen": slot.gen}}
         res = []
+        seq = bool(a.get("seq"))
+        out["seq"] = seq
+        shared = copy.deepcopy(slot.obj) if seq else None
         for r in (rA, rB):
             try:
                 fresh = self._fresh_data(r)
@@ -731,7 +874,7 @@ class Worker:
                 out["error"] = _cls(e)
                 return out
             try:
-                tw = copy.deepcopy(slot.obj)
+                tw = shared if seq else copy.deepcopy(slot.obj)
                 with self._quiet():
                     res.append(("returned", self._do_predict(tw, slot.fam, fresh, True, None)))
             except Exception as e:  # noqa: BLE001
@@ -864,14 +1007,14 @@ class Worker:
             same = txt == slot.fit_doc  # text, not parsed values: NaN != NaN would fake a difference
             out["same_as_fit"] = same
             if not same:
-                out["fit_diff_paths"] = D.top_paths(D.json_paths_diff(json.loads(slot.fit_doc), json.loads(txt)))
+                out["fit_diff_paths"] = D.top_diff(json.loads(slot.fit_doc), json.loads(txt))
         if slot.origin_doc is not None and slot.origin_doc in store:
             orig = store[slot.origin_doc]["text"]
             same = txt == orig
             out["same_as_origin"] = same
             if not same:
                 try:
-                    out["origin_diff_paths"] = D.top_paths(D.json_paths_diff(json.loads(orig), json.loads(txt)))
+                    out["origin_diff_paths"] = D.top_diff(json.loads(orig), json.loads(txt))
                 except Exception:  # noqa: BLE001
                     out["origin_diff_paths"] = ["unparseable"]
         doc_id = a["doc"]
@@ -889,7 +1032,9 @@ class Worker:
                     entry["panel"][C.rid(pr) + f"|{ign}|None"] = (rcls, D.combine(rparts) if rparts else None)
         store[doc_id] = entry
         try:
-            self.store_twins[doc_id] = copy.deepcopy(slot.obj)
+            if doc_id in self.store_twins:
+                self.store_twins[doc_id].close()
+            self.store_twins[doc_id] = RefServer(self, slot.obj, slot.fam)
         except Exception as e:  # noqa: BLE001
             out["twin_error"] = _cls(e)
         out["doc"] = doc_id
@@ -897,7 +1042,7 @@ class Worker:
 
     def op_LOAD(self, a, store):
         entry = store.get(a["doc"])
-        self.models.pop(a["m"], None)
+        self._drop_model(a["m"])
         if entry is None:
             return {"class": "skipped"}
         form = a.get("form", "json")
@@ -923,8 +1068,7 @@ class Worker:
                 out["document_changed"] = before != after
                 if before != after:
                     try:
-                        out["document_changed_paths"] = D.top_paths(
-                            D.json_paths_diff(json.loads(before), json.loads(after)))
+                        out["document_changed_paths"] = D.top_diff(json.loads(before), json.loads(after))
                     except Exception:  # noqa: BLE001
                         pass
         except Exception as e:  # noqa: BLE001
@@ -948,7 +1092,7 @@ class Worker:
             out["redoc_same"] = retxt == txt
             if retxt != txt:
                 try:
-                    out["redoc_diff_paths"] = D.top_paths(D.json_paths_diff(json.loads(txt), json.loads(retxt)))
+                    out["redoc_diff_paths"] = D.top_diff(json.loads(txt), json.loads(retxt))
                 except Exception:  # noqa: BLE001
                     out["redoc_diff_paths"] = ["unparseable"]
         try:
@@ -960,4 +1104,5 @@ class Worker:
         sig, nt = self._presig("LOAD", slot)
         out["presig"], out["nontrivial"] = sig, True
         self.models[a["m"]] = slot
+        self._enter_service(slot)
         return out
